@@ -22,6 +22,10 @@ CLAIMED = {
          'Lean proves, for every entry point table, every assignment of scalar values to any sections in any files and every option, that the value build_config computes is that of the most specific section (class-linearisation order) that sets it, else the default of the most specific class declaring it (C19_resolve_scalar), that a flag always wins and that the file read last (cwd) decides. The class table (sections, supported options, MRO of all 11 entry points) is extracted from the live classes on every run and a generated `decide` obligation checks that wherever the linearisation deviates from the documented specificity order no option is shared (C19_tableOk_sound says why that suffices). build_config for all entry points and the nbdiff/nbmerge/nbshow parsers are run in-process over generated section/file/flag assignments (three configuration directories, interleaved `--config` views) and compared with the Lean model and an executable statement of the documented rule.',
          'Trusted: Lean kernel, axioms as above; traitlets/argparse/jupyter_core path order are inputs; the theorem covers scalar option values (the nested Ignore mapping is covered by the correspondence and the documented-rule comparison only). Known finding F-global (Global section inherited by no entry point) is matched by a classifier.',
          '5/C19'),
+ 'C17': ('Lean theorems on a model of changed_notebooks/_get_diff_entry_stream/pushd (result is a position-independent filterMap of the reported entries; cwd and file system restored) + refutation witness for the unrepaired pushd + correspondence against real repositories and git',
+         'Lean proves for every entry list, ref pair and invocation directory that the examined pairs are exactly a per-entry filterMap of what git reports (each side read from the same place, non-notebooks skipped) and that the working directory is unchanged afterwards; the original `old = os.curdir` context manager is refuted by a kernel-checked two-entry witness (the defect was replayed on the code and repaired). Repositories are built by random histories with staged and unstaged changes; changed_notebooks runs in its own interpreter from the root or a subdirectory, with and without path filters, for all four ref-pair kinds, and is compared with `git diff --name-status -M -z` + `git show` and with the model fed the same entries.',
+         'Trusted: Lean kernel, axioms as above; git and GitPython are inputs of the model (the entry list and blob presence), their agreement with `git diff --name-status` is sampled; git filters (apply_possible_filter) are not configured in the scratch repositories and not modelled.',
+         '5/C17'),
  'C18': ('Lean theorems (idempotence, ownership, foreign-tool preservation, closure under command sequences by induction) on a git-config/attributes model + per-run AST extraction of the enable functions\' writes discharged by `decide` + correspondence against real git',
          'The eight enable/disable functions are modelled as transformers of a config store and an attributes file; Lean proves idempotence of every enable command, that no key outside nbdime\'s own keys/sections ever changes under any command sequence, that merge.tool / diff.guitool pointing at another tool survive every command without --set-default (and every sequence of such commands), that disable leaves no driver key, and that the attributes file keeps its content and gains at most the two nbdime lines. The git-config writes are extracted from the source by an AST walk on every run and compared with the model tables by generated `decide` obligations; command sequences run through the real entry points against real git (scratch HOME, repository and global scope) and are compared step by step with the model, with the property clauses also evaluated directly on the observed git state.',
          'Trusted: Lean kernel, axioms as above; git itself (single-valued keys; --unset/--remove-section semantics) is an input of the model, tied only by the sampled correspondence; system scope is not exercised; attributes content is chunked into nbdime lines and foreign text by the harness.',
